@@ -20,7 +20,8 @@
      "leadzero"    strict mode's leading-zero rule only covers positive non-zero integers (D16b)
      "comment_star" a block comment ending in "**/" is not terminated (D16c)
      "name_nul"    member names are cut at an escaped NUL (D01a; kept as a known finding)
-   and two pure mutants for the depth check: "depth_off_array", "depth_off_object". *)
+   and pure mutants: "depth_off_array", "depth_off_object" (depth check), "true_is_false" (the literal true yields
+   false: anti-vacuity for C01's Accepts). *)
 EXTENDS Naturals, Integers, Sequences, FiniteSets, TLC, Text, Wide
 CONSTANTS AsFound
 
@@ -170,7 +171,7 @@ Redo(tok, c, fuel) ==
             n2 == Min2(tok.stpos + 1, 5)
         IN IF LitMatch(tok, pb, TRUES, n1)
            THEN IF tok.stpos = 4
-                THEN Redo(SetTop([tok EXCEPT !.pb = pb], [lv EXCEPT !.cur = [t |-> "bool", b |-> TRUE], !.sst = "finish", !.st = "eatws"]), c, fuel - 1)
+                THEN Redo(SetTop([tok EXCEPT !.pb = pb], [lv EXCEPT !.cur = [t |-> "bool", b |-> "true_is_false" \notin AsFound], !.sst = "finish", !.st = "eatws"]), c, fuel - 1)
                 ELSE A([tok EXCEPT !.pb = pb, !.stpos = tok.stpos + 1])
            ELSE IF LitMatch(tok, pb, FALSES, n2)
            THEN IF tok.stpos = 5
